@@ -487,6 +487,7 @@ func (e *Engine) verifyFn(fn *ssa.Function, con *Contract) *VC {
 		prefix: short, props: con.Props, params: map[string]Val{}, written: map[string]bool{}}
 	var sends []string
 	a.sends = &sends
+	vc.act = a
 	st := &State{guard: "true", cells: map[*Cell]Val{}, heap: map[string]string{}}
 	st.top = vc.fresh("top0", sInt)
 	vc.assume("true", "(> "+st.top+" 0)")
